@@ -51,6 +51,10 @@ def gen_tree(rng, counter, depth, max_fan):
             c['setsid'] = True
         elif x < 0.18:
             c['setpgid'] = True
+        elif x < 0.24:
+            c['tty'] = 'pts/%d' % rng.randint(1, 9)     # runs on a pseudo terminal of its own
+        elif x < 0.28:
+            c['uid'] = rng.choice([1000, 65534])        # dropped its privileges
     return node
 
 
@@ -119,6 +123,8 @@ def check_trees(ck, n):
             ck.count('tree with processes ignoring SIGTERM')
         if has_flag(t, 'setsid') or has_flag(t, 'setpgid'):
             ck.count('tree with descendants in their own session / process group')
+        if has_flag(t, 'tty') or has_flag(t, 'uid'):
+            ck.count('tree with descendants on their own terminal / under another uid')
         ck.case(nontrivial_key=('tree', json.dumps(t)) if n_all >= 3 and rec else None,
                 sample={'depth': d, 'processes': n_all, 'recursively': rec, 'gone': len(gone), 'ignore_term': len(ignore)})
         inp = {'tree': t, 'recursively': rec, 'sudo': sudo, 'gone': sorted(gone), 'ignore_term': sorted(ignore),
@@ -532,7 +538,7 @@ def real_scenario(ck, idx, kind, depth, fanout, limit, ignore, which, results, f
     conf = K.write_real_scenario(wd, benchmarks, lim, ignore, invocations=max(1, which), forker=forker, lines=lines,
                                  exclusive=not parallel)
     # with `forker` the harness also starts a multi-threaded python process whose helper is forked by a non-main thread
-    expected_nodes = K.node_count(depth, fanout) + (4 if forker else 0)
+    expected_nodes = K.node_count(depth, fanout) + (5 if forker else 0)
     sess = K.RealSession(wd, conf, extra_args=(['-d'] if lines else []), popen_delay=extra.get('popen_delay', 0))
     log = os.path.join(wd, 'BH.log')
     res = {'kind': kind, 'depth': depth, 'fanout': fanout, 'limit': lim, 'ignore_timeouts': ignore, 'idx': idx,
@@ -697,7 +703,7 @@ def check_parallel(ck, n):
         state = {'hang_pids': [], 'quick_started': 0, 'lock': threading.Lock(), 'sent': False}
 
         def script(rec, state=state):
-            if isinstance(rec['args'], str) and rec['args'].startswith('pgrep'):
+            if isinstance(rec['args'], str) and rec['args'].split()[0] in K.DISCOVERY_COMMANDS:
                 return drive.Outcome(1, '')       # the scripted children have no descendants
             b = rec['args'].split()[-1]
             with state['lock']:
